@@ -496,6 +496,8 @@ class POMDPView:
 def make_pomdp(view, ctx=None):
     from msdm.core.pomdp import TabularPOMDP
     from msdm.core.distributions import DictDistribution
+    import numpy as _np
+    btype = (bool, _np.bool_, bool, int)[(view.nS + 3 * view.nA + view.nO) % 4]      # models that keep their flags in a numpy mask hand back numpy.bool_ (or 1)
     sk, ak, ok, sid, aid = view.sk, view.ak, view.ok, view.sid, view.aid
 
     def cb(*a):
@@ -523,7 +525,7 @@ def make_pomdp(view, ctx=None):
 
         def is_absorbing(self, s):
             cb('is_absorbing', sid[s])
-            return sid[s] in view.absorbing
+            return btype(sid[s] in view.absorbing)
 
         def observation_dist(self, a, ns):
             cb('observation_dist', aid[a], sid[ns])
